@@ -128,6 +128,29 @@ def run(ctx):
         pvlib.report_violation(ctx, "corr:b64.dec", {"ops": [b_[1] for b_ in bad[:10]], "impl": x, "model": y,
                                "correspondence": "PV.Base64.decode vs base64_decode"}, no_input=True,
                                summary=f"model/impl correspondence broken at {o[:80]}: impl {x[:40]} model {y[:40]}")
+    # ---- sequences decoded into one reused buffer (what the tools do): document k's result is its own decoding,
+    # whatever was decoded before it -- in particular the empty encoding after a non-empty document
+    import base64 as _b64
+    docs = [b"", b"", b"a", b"ab", b"abc", b"hello\n", b"x" * 100, b"\xff\x00"]
+    encs = [_b64.b64encode(d) for d in docs] + [b"=", b"==", b"YQ", b"Y Q==", b"!!!!"]
+    seqs = [list(t) for n in (2, 3) for t in itertools.product(encs[:6] + [b"="], repeat=n)]
+    seqs += [[ctx.rng.choice(encs) for _ in range(ctx.rng.randrange(2, 8))] for _ in range(300 if ctx.tier == "quick" else 5000)]
+    sops = list(dict.fromkeys("b64.decseq " + " ".join(hx(e) for e in sq) for sq in seqs))
+    sbad, sa, sb = pvlib.diff_streams(ctx, "b64.decseq", sops)
+    if sbad:
+        i, o, x, y = sorted(sbad, key=lambda q: len(q[1]))[0]
+        xs, ys = x.split(" ; "), y.split(" ; ")
+        k = next((j for j, (p_, q_) in enumerate(zip(xs, ys)) if p_ != q_), 0)
+        sq = [unhx(h) for h in o.split()[1:]]
+        # is document k's result wrong on its own, or only after the earlier ones?
+        alone = pvlib.run_lines(ctx.impl(), ["b64.dec " + hx(sq[k])], env=pvlib.san_env())[0] if k < len(sq) else "?"
+        if alone == (ys[k] if k < len(ys) else None) or (xs[k].startswith("ok ") and ys[k].startswith("ok ")):
+            pvlib.report_violation(ctx, "b64seq:" + o[:100], {"ops": [o], "impl": x, "each_document_alone": y, "document_index": k},
+                                   summary=f"decoding {sq[:k + 1]!r} one after the other into one buffer: document {k} gives {xs[k][:60]}, "
+                                           f"decoded on its own it is {ys[k][:60]}")
+        else:
+            pvlib.report_violation(ctx, "corr:b64.decseq", {"ops": [o], "impl": x, "model": y, "correspondence": "PV.Base64.decode vs base64_decode"},
+                                   no_input=True, summary=f"model/impl correspondence broken at {o[:80]}: impl {xs[k][:40]} model {ys[k][:40]}")
     # ---- docenc tool vs model, and the round trip
     run_docenc(ctx)
 
